@@ -18,6 +18,16 @@ Definition spec_arrays (T : leaf_table) (s : stmt) : list (list lref) :=
      | Some n => if complex then [[mkL f [] n []]] else map (mk_refs f n) (alternatives true n)
      end) T.
 
+(* the component fields in the documented column order, nested-statement fields as one value: the table the
+   specification is evaluated with when it is compared with the implementation's output (the theorems are generic
+   in the table and are instantiated with the one regenerated from the source) *)
+Definition spec_complex (f : field) : bool :=
+  match f with FApC | FBdirC | FBdirpC | FBindC | FBindpC | FEpC | FPC | FPpC | FCacC | FCexC | FO => true | _ => false end.
+Definition spec_table : leaf_table :=
+  map (fun f => (f, [], spec_complex f))
+    [FA; FAp; FApC; FD; FI; FBdir; FBdirC; FBdirp; FBdirpC; FBind; FBindC; FBindp; FBindpC; FCac; FCacC; FCex; FCexC;
+     FE; FEp; FEpC; FM; FF; FP; FPC; FPp; FPpC; FO].
+
 Definition spec_rows (T : leaf_table) (s : stmt) : list (list lref) := cart (filter nonempty (spec_arrays T s)).
 
 (* text of a primitive value with its inherited shared text *)
